@@ -509,6 +509,7 @@ func (e *Exec) resetPath() {
 	e.now = 1_700_000_000_000_000_000
 	e.timers = nil
 	e.mutexes2 = map[mutexKey]*mutexState{}
+	e.pools = map[mutexKey][]Value{}
 	e.timerObjs = map[*Obj]*vtimer{}
 	e.env = map[string]string{}
 	for k, v := range e.cfg.Env {
